@@ -255,7 +255,10 @@ def build_move(e, cache=None, shared=None):
         cache[e["id"]] = shared[e["id"]]
         return shared[e["id"]]
     if t == "disp":
-        m = DisplacementMove(np.array(e["labels"], dtype=int), build_op(e["op"]))
+        if e.get("apply_constraints", True) is False:
+            m = DisplacementMove(np.array(e["labels"], dtype=int), build_op(e["op"]), apply_constraints=False)
+        else:
+            m = DisplacementMove(np.array(e["labels"], dtype=int), build_op(e["op"]))
     elif t == "exch":
         m = ExchangeMove(np.array(e["labels"], dtype=int), build_op(e["op"]) if e.get("op") else None, bias_towards_insert=e.get("bias", 0.5))
     elif t == "cell":
